@@ -204,3 +204,28 @@ def shrink_candidates(c):
     for k in ('gap', 'tail'):
         if c[k]:
             d = dict(c); d[k] = b''; yield d
+
+# ---- enc tie: the Coq encoder of the theorem (Proofs/SndFacts.v enc_snd) on the same structured resources
+ENC_TIE_IMPORTS = ['Model.Snd', 'Proofs.SndFacts']
+def enc_tie_term(c):
+    from framework import cz, cbytes, clist, cbool
+    if c.get('kind') != 'snd' or c['cmd'] not in (0x8051, 0x8050):
+        return None
+    samples = c['samples']
+    ext = c['ext']
+    bits = c['bits'] if ext else 8
+    ch = c['channels'] if ext else 1
+    if ext:
+        nframes = len(samples) // ((bits // 8) * ch)
+    else:
+        nframes = 0
+    s16 = bits == 16
+    snd = ('Build_snd_spec %s %s %s %s %s %s %s %s %s %s %s %s'
+           % (cbool(ext), cz(ch), cz(bits), cz(c['rate']), cz(c['frac']), cz(c['loop'][0]), cz(c['loop'][1]), cz(nframes),
+              cbytes(c['aiff'] if ext else b''), clist([cz(0)] * 7),
+              cbytes(b'' if s16 else samples), '(to_pairs %s)' % cbytes(samples if s16 else b'')))
+    t = ('enc_snd (Build_res_spec %s %s %s %s %s %s %s (%s) %s)'
+         % (cbool(c['fmt'] == 1), clist(['(%s, %s)' % (cz(a), cz(b)) for a, b in c['dtypes']]), cz(c['refcount']),
+            clist(['(%s, %s)' % (cz(a), cz(b)) for a, b in c['nulls']]), cbool(c['cmd'] == 0x8051), cz(c['p1']),
+            cbytes(c['gap']), snd, cbytes(c['tail'])))
+    return t, enc(c)
